@@ -2,9 +2,9 @@ SPECIFICATION Spec
 CONSTANTS
   MaxTop = 2
   MaxSub = 2
-  Small = TRUE
-  Deep = TRUE
-  Dump = TRUE
+  Small = FALSE
+  Deep = FALSE
+  Dump = FALSE
   OverwriteOnReturn = FALSE
 INVARIANTS UnionHolds NonEmptySets Inert DumpBehaviour
 PROPERTY Terminates
